@@ -16,6 +16,7 @@
 #include <math.h>
 #include <sys/stat.h>
 #include <soundswallower/acmod.h>
+#include <soundswallower/bitvec.h>
 #include <soundswallower/cmn.h>
 #include <soundswallower/decoder.h>
 #include <soundswallower/err.h>
@@ -42,6 +43,7 @@ static int NTYPES = 8, MODE; /* 0 stream, 1 batch, 2 float, 3 long */
 static const char *const TNAME[11] = { "zero", "max", "min", "square", "impulse", "dc1", "noise", "speech", "f+1e30", "f-1e30", "fsubnormal" };
 static int16 SPEECH[160], NOISE[160];
 static long FRAMES_SCORED;
+static int INJECT_WORST;
 
 static void
 flag(const char *sig, const char *fmt, ...)
@@ -82,7 +84,37 @@ __wrap_acmod_score(acmod_t *acmod, int *inout_frame_idx)
         static int16 zeros[65536];
         return zeros;
     }
+    if (INJECT_WORST) {
+        /* --inject worst: the search is driven with the worst scores a scorer can deliver (32767 for every senone), to
+         * see the path scores reach their floor and stay there */
+        static int16 worst[65536];
+        if (worst[0] == 0)
+            for (i = 0; i < 65536; i++)
+                worst[i] = 32767;
+        (void)__real_acmod_score(acmod, inout_frame_idx);
+        return worst;
+    }
     scr = __real_acmod_score(acmod, inout_frame_idx);
+    if (scr && !acmod->compallsen) {
+        /* only the senones on the scorer's active list are scored (the search's set, plus senones that bridge gaps of
+         * more than 255 in the delta coding): those are in range and the best of them scores 0 */
+        int nact = 0, sen = 0;
+        for (i = 0; i < acmod->n_senone_active; i++) {
+            sen += acmod->senone_active[i];
+            if (sen >= nsen)
+                break;
+            nact++;
+            if (scr[sen] < 0) {
+                flag("C18/senone-score-out-of-range", "frame %d: active senone %d has score %d", fr, sen, scr[sen]);
+                break;
+            }
+            if (scr[sen] < minv)
+                minv = scr[sen];
+        }
+        mc_count(1, nact);
+        if (nact > 0 && minv != 0 && strcmp(acmod->mgau->vt->name, "s2_semi") != 0)
+            flag("C18/best-senone-score-not-normalised-to-zero", "frame %d: the best of the %d active senones scores %d", fr, nact, minv);
+    }
     if (scr && acmod->compallsen) {
         for (i = 0; i < nsen; i++) {
             if (scr[i] < 0) {
@@ -249,6 +281,7 @@ seq_at(long long idx, int *types, int *n)
 /* long chains, most extreme first (quick runs a prefix) */
 static const int CHAIN[16][2] = { { 0, 0 }, { 3, 3 }, { 0, 1 }, { 1, 1 }, { 2, 2 }, { 7, 7 }, { 6, 6 }, { 4, 4 }, { 5, 5 }, { 0, 3 }, { 7, 0 }, { 1, 2 }, { 6, 0 }, { 3, 7 }, { 5, 0 }, { 4, 6 } };
 static int NCHAINS = 16;
+static long NLONG = 18000;
 /* front-end configurations: the model's feat_params.json with overrides (key, JSON value) */
 static const char *const BASE[][2] = { { "lowerf", "130" }, { "upperf", "3700" }, { "nfilt", "20" }, { "transform", "\"dct\"" }, { "lifter", "22" },
     { "feat", "\"1s_c_d_dd\"" }, { "svspec", "\"0-12/13-25/26-38\"" }, { "cmn", "\"current\"" }, { "varnorm", "false" }, { "remove_noise", "true" }, { NULL, NULL } };
@@ -277,7 +310,7 @@ run_index(long long idx, void *arg)
     (void)arg;
     if (MODE == 3) {
         /* long chains: 0..NT-1 single types, then alternating pairs (i, i+1) */
-        long f, nfr = 18000;
+        long f, nfr = NLONG;
         int a = CHAIN[idx][0], b = CHAIN[idx][1], rc = 0;
         snprintf(cd, sizeof cd, "mode=long types=%s/%s frames=%ld", TNAME[a], TNAME[b], nfr);
         mc_case_begin(idx, cd);
@@ -366,7 +399,8 @@ main(int argc, char **argv)
     }
     config_set_str(cfg, "dict", dp);
     config_set_str(cfg, "loglevel", getenv("MC_LOG") ? getenv("MC_LOG") : "FATAL");
-    config_set_bool(cfg, "compallsen", 1);
+    config_set_bool(cfg, "compallsen", atoi(mc_arg(argc, argv, "--compallsen", "1")));
+    INJECT_WORST = strcmp(mc_arg(argc, argv, "--inject", "none"), "worst") == 0;
     {
         int k = atoi(mc_arg(argc, argv, "--cfg", "0")), j, sep = 0;
         char fpp[512];
@@ -434,6 +468,7 @@ main(int argc, char **argv)
         return 0;
     }
     NCHAINS = atoi(mc_arg(argc, argv, "--chains", "16"));
+    NLONG = atol(mc_arg(argc, argv, "--frames", "18000"));
     if (NCHAINS > 16)
         NCHAINS = 16;
     mc_counter_names[0] = "frames_checked_at_scoring_seam";
